@@ -327,6 +327,24 @@ def main():
         print('tooling failure: cannot import property module for', pid)
         return 2
 
+    # an exception that the LIBRARY raises inside a case the harness did not expect to be refused is an outcome of the
+    # case (reported with the case as replay), not a crash of the machinery; an exception raised by harness code still is
+    if hasattr(mod, 'check_case'):
+        _orig_check_case = mod.check_case
+
+        def _guarded_check_case(ctx_, case_, _f=_orig_check_case):
+            try:
+                return _f(ctx_, case_)
+            except Exception as e_:
+                tb_ = traceback.extract_tb(e_.__traceback__)
+                if tb_ and os.sep + 'pyerrors' + os.sep in tb_[-1].filename and os.sep + 'driver' + os.sep not in tb_[-1].filename:
+                    where_ = [f_ for f_ in tb_ if os.sep + 'driver' + os.sep in f_.filename]
+                    return [('violation', 'library-exception', '%s: %s (raised at %s:%d, called from %s:%d)' % (
+                        type(e_).__name__, str(e_)[:160], os.path.basename(tb_[-1].filename), tb_[-1].lineno,
+                        os.path.basename(where_[-1].filename) if where_ else '?', where_[-1].lineno if where_ else 0))]
+                raise
+        mod.check_case = _guarded_check_case
+
     try:
         trs = run_translators(pid)
         audit = build_and_audit(pid)
